@@ -79,6 +79,11 @@ func init() {
 		headers:   map[string]string{"P": "From BE Require Import Corr.CheckParse.", "E": "From BE Require Import Corr.CheckE2E.", "H": "From BE Require Import Corr.CheckRange."},
 		rule:      c17Rule,
 		shardSize: 400,
+		// a hash function (parser.NewHashAllocator(fn)) that panics at one call and works again at the retry
+		extra: func(tier string, seed uint64, outdir string) (map[string]interface{}, []string) {
+			n, v := faultyHashProbe()
+			return map[string]interface{}{"faulty_hash_function_parses": n}, v
+		},
 		gen: func(tier string, r *Rand, add func(in interface{})) {
 			shapes := append(allShapes(), scalarZoo()...)
 			for _, d := range rangeDescs() {
